@@ -5,7 +5,7 @@ import networkx as nx
 from . import mol as M
 
 
-def gen_stereo_molecule(rng, n_db=None, n_chiral=None, max_extra=6):
+def gen_stereo_molecule(rng, n_db=None, n_chiral=None, max_extra=6, p_ring=0.0):
     """tree-shaped molecule; -> (g, stereo) with stereo = [dict(a1,a2,l1,l2,kind)], chiral = {atom: 'R'|'S'}"""
     n_db = n_db if n_db is not None else rng.randint(1, 3)
     n_chiral = n_chiral if n_chiral is not None else rng.choice([0, 0, 1, 2])
@@ -49,6 +49,18 @@ def gen_stereo_molecule(rng, n_db=None, n_chiral=None, max_extra=6):
         el = rng.choice(['C', 'C', 'O', 'N', 'F', 'S'])
         mo = int(min(M.free(g, a), M.VAL[(el, 0)][0], 2))
         add(el, a, order=rng.choice([1, 1, mo]) if mo >= 1 else 1)
+    if rng.random() < p_ring:
+        # a stereo double bond inside a large ring: one of its atoms is bonded (single, unmarked bond) to a far-away
+        # unmarked atom, as in C1CCCCC/C=C1/F; the slash-marked bonds stay ordinary chain bonds (checked by the caller)
+        s_ = rng.choice(stereo)
+        for anc in rng.sample([s_['a1'], s_['a2']], 2):
+            if M.free(g, anc) < 1:
+                continue
+            dist = nx.single_source_shortest_path_length(g, anc)
+            far = [n for n in g if dist.get(n, 0) >= 5 and n not in marked and M.free(g, n) >= 1 and g.nodes[n]['element'] == 'C']
+            if far:
+                g.add_edge(anc, rng.choice(far), order=1)
+                break
     chiral = {}
     cands = [n for n in g if g.nodes[n]['element'] == 'C' and n not in marked and g.degree(n) >= 2
              and all(d['order'] == 1 for _, _, d in g.edges(n, data=True))]
